@@ -39,6 +39,10 @@ CLAIMED = {
   "Contract proof over the real SSA: the trusted-proxy middleware calls the trust decision once; for an untrusted peer it deletes every header of the list (proved to be exactly the seven of the property by a contract on the package initialiser) from the request before the next handler is invoked (cut-point assertion at that call), for a trusted peer it edits nothing; the trust decision is true iff some listed entry contains the peer address (single addresses by equality); list entries are parsed as written (CIDR notation by ParseCIDR, others by ParseIP - cut-point assertions on the arguments); extractURL/extractMethod take each component from its own forwarded header when present and from the actual request otherwise (host and scheme do not depend on X-Forwarded-Uri).",
   "Not covered: requestClientIPs (Forwarded / X-Forwarded-For parsing), the forwarded headers the proxy writes itself (C15), canonicalisation of header names by net/http (assumed), net.ParseIP/ParseCIDR/IP.Equal semantics (trusted). The lemma 'deleted header => Header.Get returns "" => actual request is used' is pen-and-paper over the two contracts and the net/http spec.",
   "contract-based deductive verification (govc VC generation over go/ssa, z3/cvc5)", "DESIGN.md §6 C09"),
+ "C11": ("proof",
+  "Contract proof over the real SSA with ghost logs of every Write to a digest/buffer: (1) order independence - in every function that derives a cache key or a component digest (Endpoint.Hash, Subject.Hash, the calculateCacheKey functions of the remote authorizer, generic contextualizer, JWT finalizer and the three caching authenticators) no write to the digest is reachable inside a loop that ranges over a map (claimed per function by wildcard, so a newly introduced loop is reported); (2) coverage - the key's own digest receives the endpoint digest, the mechanism id, the rendered payload / URL, the presented credential and the digest of the whole subject (id and attributes), each proved as 'some write to the digest created by this call carries exactly that value'.",
+  "Not covered: unambiguity of the concatenation (components are written without separators or length prefixes - candidate finding, not decided), whether rule-level assertions/expressions are part of the key, validation-before-caching and no-call-on-hit. SHA-256 treated as injective on the written sequence; stringx.ToBytes (unsafe) trusted as identity on bytes; json.Marshal of a map is key-sorted (std behaviour, trusted).",
+  "contract-based deductive verification (govc VC generation over go/ssa, z3/cvc5)", "DESIGN.md §6 C11"),
 }
 NOT_APPLICABLE = {
  "C20": "no contract within reach expresses or decides it: the behaviour lives in reflection-driven third-party code (koanf, mapstructure, yaml, jsonschema) and recursive any-typed merges; see DESIGN.md §6 C20",
